@@ -385,7 +385,7 @@ def directcount_model(ctx):
     return dict(coverage=cov, violations=[], level="model_checking", assumptions=[])
 
 
-PROPS["C08"] = dict(run=tables.combine(directcount_model, gateway_run(["gc", "cache", "win-gc", "win-evict"], ["cres"])))
+PROPS["C08"] = dict(run=tables.combine(directcount_model, gateway_run(["gc", "cache", "access", "win-gc", "win-evict"], ["cres"])))
 
 PROPS["C19"] = dict(run=tables.combine(throttle_model, gateway_run(["thr-ref1", "thr-ref2", "thr-reset1", "thr-reset2"], ["note", "mreq"])))
 TEXT["C19"] = _t("spec/ThrottleProof.tla: tlapm proves that never more than Limit callbacks are outstanding, for every Limit and any number of callbacks; spec/ThrottleInd.tla: Apalache shows the full safety invariant inductive (bounded constants, any depth); spec/Throttle.tla is model-checked exhaustively (bound, saturation, FIFO hand-over, every added callback eventually starts under any answer order); the real Throttle is driven directly and every Add/Done validated against it; at system level the thrAdd/thrDone notes of replayed schedules with reset/reference throttles of 1 and 2 are checked against the same transition rules, the limit, and emptiness at quiescence.",
